@@ -11,6 +11,7 @@ Arguments f64_frac_zero : simpl never.
 Arguments int_in_range : simpl never.
 Arguments pow2 : simpl never.
 Arguments unit_store : simpl never.
+Arguments delta_store : simpl never.
 Arguments unit_us : simpl never.
 Arguments str_ok : simpl never.
 Arguments name_in : simpl never.
@@ -73,7 +74,7 @@ Proof.
   - (* TTime *) destruct v; simpl in Ht; try discriminate. simpl.
     destruct u; try reflexivity; apply Z.eqb_eq in Ht; rewrite Ht; reflexivity.
   - (* TDuration *) destruct v; simpl in Ht; try discriminate. simpl.
-    destruct (unit_store u us) as [us'|]; try discriminate. apply Z.eqb_eq in Ht. subst. reflexivity.
+    destruct (delta_store u us) as [us'|]; try discriminate. apply Z.eqb_eq in Ht. subst. reflexivity.
   - (* TOpt *) simpl. destruct v; simpl in Ht; try (apply IH; assumption). apply arrow_rt_none.
   - (* TList *) destruct v; simpl in Ht; try discriminate. simpl.
     apply list_outcome_id. intros x Hx. apply IH; auto. rewrite forallb_forall in Ht. auto.
